@@ -4,6 +4,7 @@ import (
 	"fmt"
 	"os"
 	"reflect"
+	"runtime"
 	"sort"
 	"strings"
 	"sync"
@@ -44,6 +45,39 @@ func (w *World) takeLockViolations(api string) {
 	for _, lv := range lockmonTake() {
 		w.fail(lv.Kind, api, lv.Class+"@"+lv.Site, lv.Detail)
 	}
+}
+
+// spawnedGoroutineFate: what became of the goroutine(s) the package spawned from function fn:
+// "gone" (entered and returned), or the blocking state the runtime reports for it (decided on the
+// goroutine's state, never on elapsed time: the wait below only lets it reach one of the two).
+func spawnedGoroutineFate(fn string) string {
+	state := "unknown"
+	for i := 0; i < 400; i++ {
+		lockmon.mu.Lock()
+		alive := false
+		for _, name := range lockmon.alive {
+			alive = alive || strings.Contains(name, fn)
+		}
+		lockmon.mu.Unlock()
+		if !alive && i > 0 {
+			return "gone"
+		}
+		buf := make([]byte, 1<<20)
+		buf = buf[:runtime.Stack(buf, true)]
+		for _, blk := range strings.Split(string(buf), "\n\n") {
+			if strings.Contains(blk, "sod."+fn+".func") {
+				hdr := strings.SplitN(blk, "\n", 2)[0]
+				if a, b := strings.Index(hdr, "["), strings.Index(hdr, "]"); a >= 0 && b > a {
+					state = strings.SplitN(hdr[a+1:b], ",", 2)[0]
+				}
+			}
+		}
+		if state == "chan send" || state == "chan receive" || state == "select" {
+			return state
+		}
+		time.Sleep(time.Millisecond)
+	}
+	return state
 }
 
 // runC09Walk: every exported method of *DB and *Search is called at least
@@ -92,6 +126,25 @@ func runC09Walk(k int, rng *Rng) CaseResult {
 	c("DB.InsertOrUpdate", func() { w.db.InsertOrUpdate(objs[0]) })
 	c("DB.InsertOrUpdateMany", func() { w.db.InsertOrUpdateMany(objs[1], objs[2]) })
 	c("DB.InsertOrUpdateBulk", func() { w.db.InsertOrUpdateBulk(sod.ToObjectChan([]*Rec{objs[3], objs[4], objs[5]}), 2) })
+	// a bulk insertion that stops at its first chunk: the goroutine the package spawned to feed
+	// the channel (ToObjectChan) must still come to an end, nobody else holds that channel
+	{
+		bad := genRec(rng, 50, RecOpts{ValidOnly: true, Simple: true})
+		bad.Bad = 1
+		rest := []*Rec{bad, genRec(rng, 51, RecOpts{ValidOnly: true, Simple: true}), genRec(rng, 52, RecOpts{ValidOnly: true, Simple: true})}
+		var berr error
+		c("DB.InsertOrUpdateBulk(stops early)", func() { _, berr = w.db.InsertOrUpdateBulk(sod.ToObjectChan(rest), 1) })
+		if berr != nil && !w.failed() && shimAvailable {
+			switch st := spawnedGoroutineFate("ToObjectChan"); st {
+			case "gone":
+				stats.Count("producer_goroutine_ended", 1)
+			case "chan send", "chan receive", "select":
+				w.fail("spawned-goroutine-blocked-forever", "ToObjectChan", "-", fmt.Sprintf("InsertOrUpdateBulk returned (%v) after its first chunk; the goroutine spawned by ToObjectChan is blocked in [%s] on a channel only that call could read", berr, st))
+			default:
+				w.incon = "ToObjectChan goroutine neither ended nor blocked on its channel: " + st
+			}
+		}
+	}
 	// settings replaced on the live handle (the running flusher must stop cleanly)
 	if cfg.Async != 0 {
 		nc := cloneCfg(cfg)
@@ -333,6 +386,43 @@ func runC09Stress(k int, rng *Rng) CaseResult {
 				}
 				w.fail("busy-loop-under-lock", "stress", site, fmt.Sprintf("the write lock acquisition %s has been held for a whole 20 s window during which the process burnt %v of CPU, while %d calls wait: a call spins while holding the handle lock", same, cpu1-cpu0, nReaders+nWriters))
 			}
+		}
+	}
+	// phase 2: Close while other goroutines still hold the handle for reading (exported RLock, long
+	// enumerations), over several polls of the flusher: Close must end once they are gone, and the
+	// handle must answer afterwards
+	if finished && !w.failed() && k%2 == 0 {
+		var wg2 sync.WaitGroup
+		done2 := make(chan struct{})
+		r2 := rng.Fork()
+		holds := []time.Duration{time.Duration(3+r2.Intn(6)) * time.Millisecond, time.Duration(2+r2.Intn(9)) * time.Millisecond}
+		for i := 0; i < 2; i++ {
+			wg2.Add(1)
+			go func(hold time.Duration) {
+				defer wg2.Done()
+				defer func() { recover() }()
+				for j := 0; j < 4; j++ {
+					w.db.RLock()
+					time.Sleep(hold)
+					w.db.RUnlock()
+					w.db.All(&Rec{})
+				}
+			}(holds[i])
+		}
+		wg2.Add(1)
+		go func() {
+			defer wg2.Done()
+			defer func() { recover() }()
+			time.Sleep(time.Millisecond)
+			w.db.Close()
+			w.db.Count(&Rec{})
+		}()
+		go func() { wg2.Wait(); close(done2) }()
+		select {
+		case <-done2:
+			stats.Count("close_under_readers", 1)
+		case <-time.After(20 * time.Second):
+			finished = false
 		}
 	}
 	w.takeLockViolations("stress")
